@@ -74,7 +74,9 @@ def _wrap_axis(func, array, *, axis, keepdims, epsilon, bounds, **kwargs):
     scalar outputs.
 
     """
-    dummy = np.zeros_like(array).sum(axis=axis, keepdims=keepdims)
+    # The output holds noisy values: it is a float array unless the caller asked for a dtype (an array of the input's
+    # dtype would truncate the results of integer or boolean data)
+    dummy = np.zeros_like(array, dtype=kwargs.get("dtype") or float).sum(axis=axis, keepdims=keepdims)
     array = np.asarray(array)
     ndim = array.ndim
     bounds = check_bounds(bounds, np.size(dummy) if np.ndim(dummy) == 1 else 0)
